@@ -1,9 +1,13 @@
 import IcyVerif.Drv.Term
+import IcyVerif.Drv.FontLoad
+import IcyVerif.Drv.Rect
 open IcyVerif.Drv
 
 def dispatch (line : String) : String :=
   match line.trimAscii.toString.splitOn " " with
   | "term" :: rest => Term.handle rest
+  | "fontload" :: rest => FontLoad.handle rest
+  | "rect" :: rest => Rect.handle rest
   | _ => "bad-op"
 
 partial def loop (h : IO.FS.Stream) (out : IO.FS.Stream) : IO Unit := do
